@@ -183,7 +183,11 @@ func swapEqOperands(dir string, fns map[*ssa.Function]bool) (int, error) {
 			// fourth neutral change: an immediately-invoked empty closure as the first statement shifts the
 			// number go/ssa gives every anonymous function behind it (eng/closures.go maps them back)
 			if len(fd.Body.List) > 0 {
-				es = append(es, edit{fset.Position(fd.Body.Lbrace).Offset + 1, 0, "\n\tfunc() {}()\n"})
+				ins := "\n\tfunc() {}()\n"
+				if os.Getenv("OBSA_NEUTRAL_DEFER") != "" {
+					ins = "\n\tdefer func() {}()\n"
+				}
+				es = append(es, edit{fset.Position(fd.Body.Lbrace).Offset + 1, 0, ins})
 				nClos++
 			}
 			// third neutral change: reword error and log messages (first string literal of fmt.Errorf,
